@@ -1,0 +1,11 @@
+//go:build !verif
+
+package dials
+
+import "context"
+
+func verifCbCapacity() int { return 0 }
+
+func verifPoint(context.Context, string, ...any) {}
+
+func verifNote(context.Context, string, ...any) {}
